@@ -218,8 +218,18 @@ def register(name):
     return deco
 
 
+def load_extensions():
+    import glob, importlib, sys
+    here = os.path.dirname(os.path.abspath(__file__))
+    if here not in sys.path:
+        sys.path.insert(0, here)
+    for f in sorted(glob.glob(os.path.join(here, "gen_*.py"))):
+        importlib.import_module(os.path.basename(f)[:-3])   # each calls gen.register(name)(fn)
+
+
 def run(names=None):
     """regenerate; returns {name: {"changed": bool, "summary": ..}} ; raises ShapeError"""
+    load_extensions()
     os.makedirs(GEN_DIR, exist_ok=True)
     res = {}
     for name, g in GENERATORS.items():
@@ -237,5 +247,6 @@ def run(names=None):
 
 if __name__ == "__main__":
     import sys
+    sys.modules["gen"] = sys.modules["__main__"]
     r = run(sys.argv[1:] or None)
     print(json.dumps({k: v["changed"] for k, v in r.items()}))
